@@ -19,7 +19,7 @@ EXPLANATION = (
     "only where the order facts give day_submerged <= LagAer (strict guard before the integer increment), so it is >= 0. C04.e: the net-irrigation refill raises (or lowers) each compartment towards the threshold of its own layer - "
     "the per-layer threshold is recomputed from the compartment's own wilting point / field capacity at every layer change and the "
     "root-zone-average threshold computed before the loop cannot reach the refill (reaching definitions + the layer-change idiom) - "
-    "the structural half of the non-negativity of the net requirement. NOT decided: Es <= EsPot, Tr <= TrPot, non-negativity of DeepPerc / CR / GwIn / Runoff / Es "
+    "the structural half of the non-negativity of the net requirement. C04.f: every definition of the curve number reaching the retention formula S = 25400/cn - 254 is a clamp to at most 100, so S >= 0 and 0 <= runoff <= rain. C04.g (structural half of Es <= EsPot): soil_evaporation's demand ledger - remaining demand + actual evaporation is invariant from its definition to the return (linear template), and every stage potential is defined as min(remaining demand, .) or as a per-sub-step fraction of it. NOT decided: the numeric inequality Es <= EsPot itself (sum of the sub-step fractions, reduction coefficient <= 1), Tr <= TrPot, non-negativity of DeepPerc / CR / GwIn / Runoff / Es "
     "(numeric, depend on run-time water contents).")
 
 
@@ -131,8 +131,165 @@ def run(chk, prog, tier):
     # its own layer's threshold, never towards the root-zone average or another layer's
     from .c03 import rule_d as own_thresholds
     own_thresholds(chk, prog, rule="C04.e", only={"transpiration"}, floor=1)
+    rule_f(chk, prog)
+    rule_g(chk, prog)
     chk.assume("A-1")
     chk.exhaustive = True
+
+
+def rule_f(chk, prog):
+    """C04.f: runoff >= 0 and <= rain needs a non-negative retention S = 25400/cn - 254, i.e. cn <= 100: every definition of the curve
+    number that reaches the retention formula is a clamp min(., c) with c <= 100 (or a constant <= 100)"""
+    from ..rdef import flow_of, ENTRY
+    from ..model import walk_no_nested
+    rp = prog.find_func("rainfall_partition")
+    chk.fn(rp.key)
+    where = f"{rp.module}:{rp.qualname}"
+    flow = flow_of(rp)
+    n = 0
+    for a in walk_no_nested(rp.node):
+        if not isinstance(a, ast.Assign):
+            continue
+        for d in ast.walk(a.value):
+            if isinstance(d, ast.BinOp) and isinstance(d.op, ast.Div) and isinstance(d.left, ast.Constant) and d.left.value == 25400 \
+                    and isinstance(d.right, ast.Name):
+                n += 1
+                nid = flow.stmt_node[id(a)]
+                cn = d.right.id
+                for dd in flow.defs_reaching(cn, nid):
+                    da = flow.cfg.nodes[dd].ast if dd != ENTRY else None
+                    construct = f"{norm(da)[:70] if da is not None else cn + ' (parameter)'} reaches `{norm(a)[:40]}`"
+                    v = da.value if isinstance(da, ast.Assign) else None
+                    ok = False
+                    if isinstance(v, ast.Constant) and isinstance(v.value, (int, float)) and 0 < v.value <= 100:
+                        ok = True
+                    if isinstance(v, ast.Call) and isinstance(v.func, ast.Name) and v.func.id == "min" \
+                            and any(isinstance(x, ast.Constant) and isinstance(x.value, (int, float)) and 0 < x.value <= 100 for x in v.args):
+                        ok = True
+                    if ok:
+                        chk.ok("C04.f", where, construct, "curve number limited to 100: retention S >= 0")
+                    else:
+                        chk.violation("C04.f", where, construct, "the curve number that enters the retention S = 25400/cn - 254 is not limited to 100: a positive "
+                                      "field-management adjustment makes S negative and the runoff negative or larger than the rain",
+                                      loc=rp.loc(da) if da is not None else rp.loc())
+    chk.floor("C04.f", n, 1, "retention formulas 25400 / cn")
+
+
+def rule_g(chk, prog):
+    """C04.g (actual soil evaporation never exceeds potential - the structural half): soil_evaporation keeps a demand ledger
+    R = EsPot - EsAct ('water still to extract').
+      (1) linear template R + EsAct is invariant from R's definition to the return, on every path: every increment of the actual
+          evaporation is taken off the remaining demand and vice versa;
+      (2) every stage potential (a local decremented in lockstep with R) is, where it is defined, bounded by R: min(R, .) with R's
+          normal form, or a product containing R / <number of sub-steps> as a factor."""
+    from .. import affine as A
+    from ..symb import Sym
+    from ..rdef import flow_of, ENTRY
+    from ..model import walk_no_nested, AnalysisError
+    from ..common import STEP_FN
+    from ..cp import step_local
+    se = prog.find_func("soil_evaporation")
+    chk.fn(se.key)
+    where = f"{se.module}:{se.qualname}"
+    step = prog.func(STEP_FN)
+    call = [c for c, t in prog.calls_in(step) if getattr(t, "key", None) == se.key][0]
+    tg = [n.targets[0].elts for n in walk_no_nested(step.node) if isinstance(n, ast.Assign) and n.value is call and isinstance(n.targets[0], ast.Tuple)][0]
+    L_es, L_pot = step_local(prog, "col:Es"), step_local(prog, "col:EsPot")
+    pos_es = next(i for i, t in enumerate(tg) if isinstance(t, ast.Name) and t.id == L_es)
+    pos_pot = next(i for i, t in enumerate(tg) if isinstance(t, ast.Name) and t.id == L_pot)
+    ret = [r for r in walk_no_nested(se.node) if isinstance(r, ast.Return)]
+    if len(ret) != 1 or not isinstance(ret[0].value, ast.Tuple):
+        raise AnalysisError("soil_evaporation: expected a single tuple return")
+    E, P = ret[0].value.elts[pos_es], ret[0].value.elts[pos_pot]
+    if not (isinstance(E, ast.Name) and isinstance(P, ast.Name)):
+        raise AnalysisError("soil_evaporation: returned actual / potential evaporation are not plain locals")
+    E, P = E.id, P.id
+    # the ledger R: R = P - E
+    rdefs = [a for a in walk_no_nested(se.node) if isinstance(a, ast.Assign) and isinstance(a.targets[0], ast.Name) and isinstance(a.value, ast.BinOp)
+             and isinstance(a.value.op, ast.Sub) and norm(a.value.left) == P and norm(a.value.right) == E]
+    if len(rdefs) != 1:
+        chk.violation("C04.g", where, f"remaining demand = {P} - {E}", "the remaining evaporative demand is no longer defined as potential minus actual: the "
+                      "extraction stages are not limited by the potential", loc=se.loc())
+        return
+    R = rdefs[0].targets[0].id
+    flow = flow_of(se)
+    base = Sym(prog, se)
+    r_nid = base.cfg.node_of(rdefs[0]).id
+    # the template restarts *after* the definition: use the successor node(s)
+    succ = [t for t, _ in base.cfg.nodes[r_nid].succs]
+    sym = Sym(prog, se, templates={"L": {R: 1, E: 1}}, reset_at={"L": succ[0]})
+    start = sym.template_at("L", succ[0])
+    # (1)
+    for n, st in sym.at_return():
+        t = st.tmpl.get("L")
+        want = sym.state_in[succ[0]]
+        ref = A.add(want.env.get(R, A.atom(R)), want.env.get(E, A.atom(E)))
+        construct = f"{R} + {E} invariant from `{norm(rdefs[0])}` to the return"
+        if t is not None and A.equal(t, ref):
+            chk.ok("C04.g", where, construct, "template value unchanged on every path")
+        else:
+            chk.violation("C04.g", where, construct, "an increment of the actual evaporation is not taken off the remaining demand (or the demand is reduced "
+                          f"without evaporating): template {'differs between paths' if t is None else A.text(t)[:80]} vs {A.text(ref)[:60]}; the extraction can "
+                          "exceed the potential", loc=se.loc(n.ast))
+    # (2) stage potentials: locals V with statements V = V - x in a block that also has R = R - x
+    stage = set()
+    for a in walk_no_nested(se.node):
+        if isinstance(a, ast.Assign) and isinstance(a.targets[0], ast.Name) and isinstance(a.value, ast.BinOp) and isinstance(a.value.op, ast.Sub) \
+                and isinstance(a.value.left, ast.Name) and a.value.left.id == a.targets[0].id and a.targets[0].id not in (R, E):
+            nid = flow.stmt_node.get(id(a))
+            x = norm(a.value.right)
+            for b in walk_no_nested(se.node):
+                if isinstance(b, ast.Assign) and isinstance(b.targets[0], ast.Name) and b.targets[0].id == R and isinstance(b.value, ast.BinOp) \
+                        and isinstance(b.value.op, ast.Sub) and norm(b.value.left) == R and norm(b.value.right) == x \
+                        and flow.cfg.control_deps().get(flow.stmt_node.get(id(b))) == flow.cfg.control_deps().get(nid):
+                    stage.add(a.targets[0].id)
+    # a stage potential is what its extraction loop runs down: it appears in a while test
+    in_while = {x.id for w in walk_no_nested(se.node) if isinstance(w, ast.While) for x in ast.walk(w.test) if isinstance(x, ast.Name)}
+    stage &= in_while
+    chk.floor("C04.g-stages", len(stage), 2, "stage potentials decremented in lockstep with the remaining demand")
+    for V in sorted(stage):
+        for a in walk_no_nested(se.node):
+            if not (isinstance(a, ast.Assign) and isinstance(a.targets[0], ast.Name) and a.targets[0].id == V):
+                continue
+            v = a.value
+            if isinstance(v, ast.BinOp) and isinstance(v.op, ast.Sub) and isinstance(v.left, ast.Name) and v.left.id == V:
+                continue            # lockstep decrement
+            if isinstance(v, ast.Constant) and v.value == 0:
+                continue
+            node = sym.cfg.node_of(a)
+            st = sym.state_in.get(node.id) if node is not None else None
+            construct = f"{norm(a)[:80]} bounded by the remaining demand {R}"
+            if st is None:
+                continue
+            rnf = sym.nf(ast.Name(id=R, ctx=ast.Load()), st)
+            ok, why = False, ""
+            if isinstance(v, ast.Call) and isinstance(v.func, ast.Name) and v.func.id == "min":
+                if any(A.equal(sym.nf(x, st), rnf) for x in v.args):
+                    ok, why = True, f"min({R}, .)"
+                else:
+                    why = f"no argument of {norm(v)} is the remaining demand ({A.text(rnf)[:60]})"
+            else:
+                # product with R / n as a factor: the normal form of v is divisible by R's (single-atom) normal form
+                vn = sym.nf(v, st)
+                ratoms = {x for m in rnf for x, _ in m}
+                if len(rnf) == 1 and vn and all(all(dict(m).get(x, 0) >= 1 for x in ratoms) for m in vn):
+                    ok, why = True, f"a fraction of {R} per sub-step"
+                elif vn and ratoms and all(any(x in dict(m) for x in ratoms) for m in vn) and len(rnf) == 1:
+                    ok, why = True, f"a fraction of {R} per sub-step"
+                else:
+                    # through a local defined as R / n
+                    names = [x.id for x in ast.walk(v) if isinstance(x, ast.Name)]
+                    for nm in names:
+                        for d in flow.defs_reaching(nm, flow.stmt_node[id(a)]):
+                            da = flow.cfg.nodes[d].ast if d != ENTRY else None
+                            if isinstance(da, ast.Assign) and isinstance(da.value, ast.BinOp) and isinstance(da.value.op, ast.Div) and norm(da.value.left) == R:
+                                ok, why = True, f"{nm} = {norm(da.value)} times a reduction coefficient"
+                    if not ok:
+                        why = f"`{norm(v)[:60]}` is not derived from the remaining demand"
+            if ok:
+                chk.ok("C04.g", where, construct, why)
+            else:
+                chk.violation("C04.g", where, construct, f"a stage of the evaporation may extract more than what is left of the potential: {why}", loc=se.loc(a))
 
 
 def rule_d(chk, prog):
